@@ -296,7 +296,7 @@ func (pg *program) Generate() error {
 	sort.Slice(pkgInfos, func(i, j int) bool {
 		return pkgInfos[i].Pkg.Path() < pkgInfos[j].Pkg.Path()
 	})
-	pkgInfos = importedFirst(pkgInfos)
+	pkgInfos = importedFirst(pg.program, pkgInfos)
 	for i := range pkgInfos {
 		if err := pg.generatePackage(pkgInfos[i]); err != nil {
 			return err
@@ -321,12 +321,30 @@ func isExternalTestPackage(program *loader.Program, pkgInfo *loader.PackageInfo)
 // importedFirst reorders the packages such that a package comes after the packages it imports, and otherwise keeps the order.
 // The type of a derive call's argument can depend on a function that is generated for an imported package:
 // whether that function exists yet should not depend on how the packages were named on the command line.
-func importedFirst(pkgInfos []*loader.PackageInfo) []*loader.PackageInfo {
-	named := make(map[*types.Package]*loader.PackageInfo, len(pkgInfos))
+// A package named by a relative path is loaded apart from the package of the same directory that another one imports,
+// so the packages are matched by their directories.
+func importedFirst(program *loader.Program, pkgInfos []*loader.PackageInfo) []*loader.PackageInfo {
+	dirOf := func(pkgInfo *loader.PackageInfo) string {
+		if pkgInfo == nil {
+			return ""
+		}
+		for _, astFile := range pkgInfo.Files {
+			if file := program.Fset.File(astFile.Pos()); file != nil {
+				if abs, err := filepath.Abs(file.Name()); err == nil {
+					return filepath.Dir(abs)
+				}
+			}
+		}
+		return ""
+	}
+	named := make(map[string][]*loader.PackageInfo, len(pkgInfos))
 	for _, pkgInfo := range pkgInfos {
-		named[pkgInfo.Pkg] = pkgInfo
+		if dir := dirOf(pkgInfo); dir != "" {
+			named[dir] = append(named[dir], pkgInfo)
+		}
 	}
 	ordered := make([]*loader.PackageInfo, 0, len(pkgInfos))
+	placed := make(map[*loader.PackageInfo]bool, len(pkgInfos))
 	visited := make(map[*types.Package]bool)
 	var visit func(p *types.Package)
 	visit = func(p *types.Package) {
@@ -338,9 +356,20 @@ func importedFirst(pkgInfos []*loader.PackageInfo) []*loader.PackageInfo {
 		sort.Slice(imports, func(i, j int) bool { return imports[i].Path() < imports[j].Path() })
 		for _, imported := range imports {
 			visit(imported)
+			// the named packages of the imported package's directory (itself, or its twin under a relative path)
+			for _, twin := range named[dirOf(program.AllPackages[imported])] {
+				if twin.Pkg != p {
+					visit(twin.Pkg)
+				}
+			}
 		}
-		if pkgInfo, ok := named[p]; ok {
-			ordered = append(ordered, pkgInfo)
+		if pkgInfo := program.AllPackages[p]; pkgInfo != nil && !placed[pkgInfo] {
+			for _, n := range pkgInfos {
+				if n == pkgInfo {
+					placed[pkgInfo] = true
+					ordered = append(ordered, pkgInfo)
+				}
+			}
 		}
 	}
 	for _, pkgInfo := range pkgInfos {
